@@ -14,8 +14,11 @@ RULE = (
     "expunge, collection append/remove, scalar parent set, collection replace, flush, expire} on 3-7 objects "
     "driven through a real Session(autoflush=False, expire_on_commit=False) on in-memory SQLite and observed "
     "after EVERY operation (object states, session.deleted, rows with foreign keys after each flush, expired "
-    "set, final collections). kind sweep: every one of the 64 forward masks x 4 backref variants x 9 scripted "
-    "re-parenting / orphaning / delete histories; kind guided: random histories (quick <= 12 ops, thorough <= 16) "
+    "set, final collections). kind sweep: every one of the 64 forward masks x 4 backref variants x 10 scripted "
+    "re-parenting / orphaning / delete histories (one removes a child and deletes its parent in one flush); kind "
+    "m2o (oracle only, not modelled): Order.addr many-to-one single_parent delete-orphan -> Address.lines -> Line, "
+    "5x5 cascade masks x backref x scripted + random histories, judged by 'whatever leaves the session takes its "
+    "expunge-cascade closure with it'; kind guided: random histories (quick <= 12 ops, thorough <= 16) "
     "from a state-aware generator. Operations whose effect depends on set iteration order in the unit of work "
     "(detected by permuting the processor order in the reference model) and operations on objects already deleted "
     "in the transaction are not generated. non-trivial = the history flushes and re-parents or orphans an object"
@@ -1576,7 +1579,9 @@ LEVEL_TEXT = (
     "<= persistent as invariants over all operation histories (induction over the history)."
 )
 LEVEL_NOTE = (
-    "partial: one-to-many relationships with optional many-to-one backref only (no many-to-many, single_parent, "
+    "partial: the model covers one-to-many relationships with optional many-to-one backref only; the scalar "
+    "(many-to-one, single_parent) delete-orphan side and two-level graphs through it are exercised by an "
+    "oracle-only case family without model or theorem (no many-to-many, "
     "passive_deletes, post_update, self-referential or cyclic class graphs); merge cascade is covered by C45; "
     "refresh is represented by expire (same cascade iterator); expire is the last operation of a compared "
     "history; no rollback/commit; flush outcomes that depend on set iteration order and operations on objects "
